@@ -307,6 +307,32 @@ def check_case(ctx, case):
         if len(res) == 2 and all(v[0].shape == E.shape for v in res.values()):
             if not numpy.array_equal(res["explicit"][0], res["bound"][0]) or not numpy.array_equal(res["explicit"][1], res["bound"][1]):
                 ctx.violation("tol_region_bound_differs_from_explicit_bins", {"tol": tol, "explicit_mc": res["explicit"][1].tolist(), "bound_mc": res["bound"][1].tolist()})
+    # ---- the same events in a catalog whose structured array stores coordinates and magnitudes in single precision (a legitimate
+    # ndarray catalog): float32(5.1) is not 5.1, so no reference gridding here - only the identities the property states between the
+    # library's own answers: total, marginals, and bin count == events kept by the equivalent magnitude-range filter
+    if case.get("f4_columns") and n and not outside and not below:
+        dt = numpy.dtype([("id", "S256"), ("origin_time", "<i8"), ("latitude", "<f4"), ("longitude", "<f4"), ("depth", "<f4"), ("magnitude", "<f4")])
+        arr = numpy.array([(e[0].encode(), e[1], e[2], e[3], e[4], e[5]) for e in events], dtype=dt)
+
+        def cat4():
+            return CSEPCatalog(data=arr.copy(), region=region)
+        o1 = call(lambda: cat4().spatial_magnitude_counts(**kw))
+        o2 = call(lambda: cat4().magnitude_counts(**kw))
+        o3 = call(lambda: cat4().spatial_counts())
+        if o1.ok and o2.ok and o3.ok:
+            ctx.count("single_precision_catalogs")
+            g1, g2, g3 = numpy.asarray(o1.value), numpy.asarray(o2.value), numpy.asarray(o3.value)
+            if g1.shape == E.shape and g2.shape == want_mag.shape:
+                if g1.sum() != n or not numpy.array_equal(g1.sum(axis=0), g2) or not numpy.array_equal(g1.sum(axis=1), g3):
+                    ctx.violation("f4_catalog:totals_or_marginals_inconsistent", {"smc_sum": float(g1.sum()), "n": n})
+                for k in range(len(edges)):
+                    st_ = ["magnitude >= %r" % edges[k]] + (["magnitude < %r" % edges[k + 1]] if k + 1 < len(edges) else [])
+                    of = call(lambda: cat4().filter(st_, in_place=False).event_count)
+                    if of.ok and of.value != int(g2[k]):
+                        ctx.violation("f4_catalog:bin_count_differs_from_range_filter", {"k": k, "filter": st_, "filter_count": of.value, "bin_count": float(g2[k])})
+                        break
+        else:
+            ctx.count("skipped:single_precision_catalog_rejected")     # float32 rounding may move an event across the region's border
     # ---- bin count == equivalent magnitude-range filter
     if n and not below:
         om = call(lambda: cat().magnitude_counts(**kw))
@@ -406,6 +432,8 @@ def cases(draw, max_events=40):
         case["tol_edges"] = draw(st.lists(st.integers(1, mc["n"] - 1), min_size=1, max_size=3))
     if draw(st.integers(0, 15)) == 0:
         case["repeat"] = draw(st.sampled_from([30, 100]))
+    if draw(st.integers(0, 4)) == 0:
+        case["f4_columns"] = True
     if draw(st.booleans()):
         case["family"] = "mixed"
         pos = []
